@@ -1017,6 +1017,10 @@ impl<'tcx> Cx<'tcx> {
                     o.set("callee", s(self.path(*d)));
                     o.set("callee_name", s(self.iname(*d)));
                     o.set("callee_local", J::Bool(d.is_local()));
+                    if matches!(tcx.def_kind(*d), rustc_hir::def::DefKind::Fn | rustc_hir::def::DefKind::AssocFn) {
+                        let cs = tcx.fn_sig(*d).instantiate_identity().skip_norm_wip().skip_binder();
+                        o.set("callee_unsafe", J::Bool(cs.safety().is_unsafe()));
+                    }
                     let mut a = Vec::new();
                     for g in ga.iter() {
                         if let GenericArgKind::Type(t2) = g.kind() {
